@@ -546,7 +546,8 @@ def judge_env(case):
 
 # ---- the content hash is the MD5 of the UTF-8 contents -----------------------------------------
 
-HASH_PATTERNS = ['ascii', 'first-2byte', 'last-2byte', 'all-2byte', 'all-3byte', 'all-4byte', 'mixed', 'surrogate-free-bmp-end']
+HASH_PATTERNS = ['ascii', 'first-2byte', 'last-2byte', 'all-2byte', 'all-3byte', 'all-4byte', 'mixed', 'surrogate-free-bmp-end',
+                 'crlf', 'cr', 'controls']
 
 
 def hash_contents(pattern, length):
@@ -564,6 +565,12 @@ def hash_contents(pattern, length):
         return '\u6f22' * length
     if pattern == 'all-4byte':
         return '\U0001f600' * length
+    if pattern == 'crlf':
+        return ('line\r\n' * (length // 6 + 1))[:length]
+    if pattern == 'cr':
+        return ('ab\rc\n\r' * (length // 6 + 1))[:length]
+    if pattern == 'controls':
+        return ('a\x00\x0c\x1a\t\x7f \n' * (length // 8 + 1))[:length]
     if pattern == 'mixed':
         return ('a\u00e9\u6f22\U0001f600\n' * (length // 5 + 1))[:length]
     return 'x' * (length - 1) + '\uffff'
